@@ -18,10 +18,10 @@ from .c09 import finish
 
 KINDS = ['split', 'flat', 'multi', 'nested', 'nested', 'payload', 'nested_relaxed_inner', 'unsized', 'unsized2', 'targs:generic', 'targs:concrete', 'targs:lifetime', 'targs:const', 'targs:bounded',
          'targs:unsized_arg', 'targs:default_omitted', 'targs:unsized_where', 'targs:bounded_composite', 'flat', 'multi',
-         'targs:nested_arg_wild', 'targs:nested_arg', 'targs:repeated_arg', 'targs:reflexive_mix']
+         'targs:nested_arg_wild', 'targs:nested_arg', 'targs:repeated_arg', 'targs:reflexive_mix', 'tworoots']
 # kinds without a reference encoding whose blocks are pairwise distinguished on a shared key by
 # construction: the expansion must compile unless the world holds a type satisfying two blocks
-ACCEPT_WITHOUT_REFERENCE = {'targs:nested_arg_wild', 'targs:nested_arg', 'targs:repeated_arg', 'targs:reflexive_mix'}
+ACCEPT_WITHOUT_REFERENCE = {'targs:nested_arg_wild', 'targs:nested_arg', 'targs:repeated_arg', 'targs:reflexive_mix', 'tworoots'}
 
 
 def header_slots(b):
@@ -208,6 +208,19 @@ def run(tier, seed, replay=None):
                 if all(cnt <= 1 for cnt in S.values()):
                     violations.append(dict(kind='property', request=c.invocation(), program=c.macro_program(), errors=m['errors'][:4],
                                            oracle='the expansion of an invocation whose blocks are pairwise distinguished on a shared key (no probe satisfies two blocks) does not compile: %s' % m['errors'][:3]))
+            elif c.kind in ACCEPT_WITHOUT_REFERENCE and macro_ok and s['ok'] and s.get('run_ok'):
+                # accepted: every block must be usable, i.e. the trait is implemented exactly for the probes
+                # that satisfy one block (the shadow traits stand in for the missing reference encoding)
+                S = {}
+                for k, v in pe.parse_table(s['stdout'], 'S').items():
+                    S[int(k.split('_')[0])] = S.get(int(k.split('_')[0]), 0) + (v == 'true')
+                Pm = {int(k): v == 'true' for k, v in pe.parse_table(m['stdout'], 'P').items()}
+                bad = [j for j in Pm if S.get(j, 0) <= 1 and Pm[j] != (S.get(j, 0) == 1)]
+                if bad and all(cnt <= 1 for cnt in S.values()):
+                    violations.append(dict(kind='property', request=c.invocation(), program=c.macro_program(),
+                                           oracle='the invocation is accepted but a block is not usable: probes %s satisfy exactly one block (or none), the expansion says otherwise' % [c.probes[j][1] for j in bad[:4]]))
+                else:
+                    nontrivial.add(c.invocation())
             continue
         if not (rr['ok'] and rr.get('run_ok')):
             stats['reference_rejected'] += 1     # the hand-written encoding is not accepted either: inconclusive
